@@ -3,7 +3,12 @@ import itertools, math
 import numpy as np
 from common import Fr, enc_q
 
-NAMES = ['a', 'b', 'c', 'd', 'e', 'f', 'g']
+# two-character names (see rggen.fresh): cliques reach the implementation as string objects EQUAL to the domain's names, not identical
+NAMES = ['a_', 'b_', 'c_', 'd_', 'e_', 'f_', 'g_']
+
+
+def fresh(a):
+    return ''.join(list(a)) if isinstance(a, str) and len(a) >= 2 else a
 VALS = [Fr(0), Fr(1, 8), Fr(1, 4), Fr(1, 2), Fr(1), Fr(1), Fr(2), Fr(3), Fr(5)]
 
 
@@ -62,7 +67,7 @@ def gen_order(r, dom):
 def build_model(dom, cliques, total, order, form=None):
     from mbi import Domain, GraphicalModel
     d = Domain([a for a, _ in dom], [s for _, s in dom])
-    return GraphicalModel(d, [tuple(c) for c in cliques], total=total, elimination_order=order_form(order, form))
+    return GraphicalModel(d, [tuple(fresh(a) for a in c) for c in cliques], total=total, elimination_order=order_form(order, form))
 
 
 ORDER_FORMS = ['list', 'tuple', 'iter', 'generator', 'reversed', 'map', 'dict_keys']
